@@ -100,7 +100,7 @@ theorem import_export_reproduces (base s : State) (he : Exportable s) :
       rw [(he.inv t).idx, hnil]; rfl
   let os' : OState := { params := s.os.params, round := none, prevotes := s.os.prevotes, votes := s.os.votes, miss := s.os.miss, feeders := s.os.feeders }
   let sA : State := { base with st := { st1 with tenants := s.st.tenants }, os := os' }
-  let s' : State := { sA with os := { sA.os with round := some (nextRoundInfo sA) } }
+  let s' : State := { sA with os := { sA.os with round := some (nextRoundInfo { sA with h := sA.h - 1 }) } }
   refine ⟨s', ?_, ?_, rfl, hrecs, rfl, rfl, rfl, rfl, rfl, ?_⟩
   · rw [json_is_identity_on_exports s he.utf]
     unfold importG exportG
